@@ -238,6 +238,19 @@ CLAIMED['C06'] = {
     'note': 'Trusted: Coq kernel; hand transcriptions Ack997/Ack999/Errh/Writer/Pipeline; Spec/C06_spec.v recount; extraction.',
     'technique': 'Coq proof (invariant over the visitor run; writer theorems of C11 reused for the 999) + extracted-model correspondence + oracle',
 }
+CLAIMED['C09'] = {
+    'text': 'PARTIAL. Theorem C09_no_loss_no_reorder_partial over the model of X12ContextReader.iter_segments: for every text, map '
+            'environment and loop id (or none) for which iteration completes, provided no loop node was inserted before an older '
+            'sibling during the run, the segments of the yielded nodes concatenated in yield order are exactly the source segments in '
+            'source order, each carrying the reader\'s set position and line number (heap invariant along the rightmost path of the '
+            'open tree). The premise is not implied by completion: C09_unrestricted_is_false gives a machine-checked counterexample '
+            '(a map with two sibling loops of the same id). Not proved: tree boundaries and arrangement by map path. The check '
+            'compares model and implementation on generated documents x loop ids and applies an independent partition / arrangement '
+            'oracle to the implementation (incl. envelope loops, back-to-back repeats, end of file).',
+    'design_ref': 'DESIGN.md §6 C09, §11',
+    'note': 'Trusted: Coq kernel; hand transcriptions Context.v / CtxReader.v / Walker / Reader; Spec/C09_spec.v; extraction.',
+    'technique': 'Coq proof (heap invariant over the reader run: open tree is spine-shaped, add_segment extends the traversal at the end) + extracted-model correspondence + oracle',
+}
 
 NOT_YET = {
 }
